@@ -272,8 +272,14 @@ def generate_dependent_dispatch(tup, handlers, next_call, slf, name, err, nerr):
 
     body = []
     if keyexpr:
+        body.append("try:")
         body.append(
-            f"{local('HANDLER')} = {ndb[keyed]}.get({keyexpr}, {local('FALLTHROUGH')})"
+            f"    {local('HANDLER')} = {ndb[keyed]}.get({keyexpr}, {local('FALLTHROUGH')})"
+        )
+        body.append("except TypeError:")
+        # An argument that cannot be hashed can still be equal to a key
+        body.append(
+            f"    {local('HANDLER')} = next((h for k, h in {ndb[keyed]}.items() if k == {keyexpr}), {local('FALLTHROUGH')})"
         )
         body.append(f"return {local('HANDLER')}({slf}{argcall})")
 
